@@ -10,10 +10,12 @@ spec/TraceLife.tla (trace validation).
    limit, backend sleep, signal flavour), runs in a forked child with the REAL backend thread and a real FileSink
    (harness/h_life.cpp); the child logs its observable events in shared memory, the parent adds wait status and file.
 4. TLC validates every recorded execution against the contract (TraceLife). Only a contract rejection that repeats in
-   three re-runs of the same scenario is a violation; a rejection that does not repeat is reported as drift."""
+   three re-runs of the same scenario is a violation; a rejection that does not repeat is reported as drift.
+5. The stop handshake under the C++ release/acquire model: spec/StopRA.tla with the memory orders extracted from the code,
+   replayed on the REAL backend thread / Backend::stop() / log calls running on a shim atomic (tools/stopmodel.py)."""
 import json, os, random, re, signal, subprocess
 from concurrent.futures import ThreadPoolExecutor
-import vlib
+import vlib, stopmodel
 
 SIGNUM = {"SEGV": signal.SIGSEGV.value, "ABRT": signal.SIGABRT.value, "FPE": signal.SIGFPE.value,
           "ILL": signal.SIGILL.value, "INT": signal.SIGINT.value, "TERM": signal.SIGTERM.value}
@@ -579,6 +581,9 @@ def strict_checks(s, o):
 def run(ck):
     quick = ck.tier == "quick"
     rng = random.Random(ck.seed)
+    stopmodel.run_for(ck)
+    if os.environ.get("VERIF_PART") == "model":
+        return
     ck.rule = ("programs = frontend projections of seeded TLC simulation behaviours of Life (main + 2 workers, <= 3 statements "
                "each, <= 2/3 starts, stop/exit/return/six signals at any statement boundary, workers alive or finished), "
                "deduplicated, sampled round-robin over shape classes, crossed with seeded run attributes (clock sys/tsc, gate "
@@ -752,6 +757,9 @@ def run(ck):
 
 def replay(ck, path):
     j = json.loads(open(path).read())["replay"]
+    if j.get("harness") == "h_stop":
+        stopmodel.replay(path)
+        return
     exe = build_harness(bounded=j.get("harness") == "h_life_bb")
     f = j["scenario"].split()
     s = {"id": "replay", "steps": f[10:], "attrs": {"wait": int(f[8]), "named": int(f[7]), "q": int(f[9])}}
